@@ -357,7 +357,8 @@ def proto_set_response_params(u: U):
 
 @unit("C06", "close_not_release", functions=[f"{CL}:_connect_and_send_request", f"{CONN}:Connection.close",
                                              f"{CONN}:Connection.release", f"{RR}:ClientResponse.close",
-                                             f"{RR}:ClientResponse.release", f"{RR}:ClientResponse._response_eof"])
+                                             f"{RR}:ClientResponse.release", f"{RR}:ClientResponse._response_eof"],
+      also=("C18",))
 def close_not_release(u: U):
     """a failed or cancelled exchange closes its connection; only a response that reached its end releases it; an
     upgraded response keeps it"""
@@ -426,6 +427,8 @@ def close_not_release(u: U):
             u.check("C06.send.failure_closes", len(rel) == 1 and rel[0][1] is proto and rel[0][2] is True,
                     "a failure or cancellation after the connection was acquired closes it (should_close=True): it is "
                     "never pooled")
+            u.check("C18.residue.connection_closed_not_reused", len(rel) == 1 and rel[0][1] is proto and rel[0][2] is True,
+                    "after a timeout or cancellation during send / response start the connection is closed, not pooled")
     # ClientResponse.close / release / _response_eof
     log.clear()
     which = u.choose(3, "response.op")
@@ -465,7 +468,7 @@ def close_not_release(u: U):
             u.check("C06.response.eof_releases", len(rel) == 1 and rel[0][2] is False, "end of body releases the connection")
 
 
-@unit("C06", "write_bytes", functions=[f"{RR}:ClientRequest._write_bytes"])
+@unit("C06", "write_bytes", functions=[f"{RR}:ClientRequest._write_bytes"], also=("C18",))
 def write_bytes(u: U):
     """ClientRequest._write_bytes: an interrupted body makes the connection unusable - cancellation closes it, every
     other failure poisons the protocol (should_close through _exception); only a complete body ends with write_eof"""
@@ -528,6 +531,8 @@ def write_bytes(u: U):
         u.check("C06.write.only_cancel_escapes", isinstance(out.exc, asyncio.CancelledError), repr(out))
         u.check("C06.write.cancel_closes", "conn.close" in names,
                 "a cancelled body write closes the connection whatever was already written: it cannot be reused")
+        u.check("C18.residue.cancelled_write_closes", "conn.close" in names,
+                "cancelling a request while its body is being sent closes the connection")
 
 
 @unit("C06", "canary.always_reuse", functions=[f"{CONN}:BaseConnector._release"], expect="canary")
